@@ -16,8 +16,20 @@ BATCH = 250
 
 
 def render_class(name, c, names):
-    bases = [BASEKW[r] + " " + names[j] for j, r in enumerate(c["rel"]) if r in BASEKW]
+    hsh = sum(ord(ch) for ch in name)
+    # spellings of a public virtual base of a struct: the same to C++ (a struct's bases are public by default)
+    vspell = ["public virtual", "virtual public", "virtual"][hsh % 3]
+    # the type of a member sub-object may be written through a typedef (declared before the class)
+    via_typedef = hsh % 5 == 2
+    pre = []
+    bases = [(vspell if r == "base_vpub" else BASEKW[r]) + " " + names[j] for j, r in enumerate(c["rel"]) if r in BASEKW]
     L = ["struct %s%s {" % (name, (" : " + ", ".join(bases)) if bases else "")]
+    if via_typedef:
+        for j, r in enumerate(c["rel"]):
+            if r in ("member", "arrmember"):
+                pre.append("typedef %s %s_t%d;" % (names[j], name, j))
+    # members that have no effect on any trait: const / reference members WITH a default member initializer
+    neutral = [[], ["  const int zi{4};"], ["  const int zj = 4;", "  int &zr = zg;"], ["  static const int zs = 3;"], []][hsh % 5]
 
     def sm(state, acc, decl):
         if state != "none":
@@ -53,11 +65,13 @@ def render_class(name, c, names):
         L.append("  const int cm;")
     if c["ref"]:
         L.append("  int &rm;")
+    L += neutral
     for j, r in enumerate(c["rel"]):
+        tn = ("%s_t%d" % (name, j)) if via_typedef else names[j]
         if r == "member":
-            L.append("  %s m%d;" % (names[j], j))
+            L.append("  %s m%d;" % (tn, j))
         elif r == "arrmember":
-            L.append("  %s a%d[2];" % (names[j], j))
+            L.append("  %s a%d[2];" % (tn, j))
         elif r == "staticmember":
             L.append("  static %s s%d;" % (names[j], j))
     # spellings of the virtual function, the same style for all classes of one program
@@ -75,7 +89,7 @@ def render_class(name, c, names):
     elif c["vf"] == "overc":
         L.append("  void f(%s) const;" % par)      # an overload: does not override void f()
     L.append("};")
-    return "\n".join(L)
+    return "\n".join(pre + L)
 
 
 def render_case(i, rec):
@@ -84,7 +98,7 @@ def render_case(i, rec):
     out = []
     for k, c in enumerate(rec["c"]):
         out.append(render_class(names[k], c, names))
-    return "\n".join(out)
+    return "\n".join(out)      # (the headers define `extern int zg;` once, see ZG)
 
 
 PROBE = r'''#include <type_traits>
@@ -166,7 +180,7 @@ def spec_tuple(v):
 def run_batch(args):
     work, b, cases = args
     h = "b%d.h" % b
-    open(os.path.join(work, h), "w").write("\n".join(render_case(i, rec) for i, rec in cases) + "\n")
+    open(os.path.join(work, h), "w").write("extern int zg;\n" + "\n".join(render_case(i, rec) for i, rec in cases) + "\n")
     src = "b%d.cxx" % b
     body = "".join("P(%d,C%d) " % (i, k + 1) for i, rec in cases for k in range(len(rec["c"])))
     open(os.path.join(work, src), "w").write('#include "%s"\n%sint main(){\n%s\n}\n' % (h, PROBE, body))
